@@ -169,3 +169,20 @@ UNITS += [
     plan_view('PlanControl.plan.PayloadPlan', PC_CLS, False, 'self->_b0._core', rv='._b0'),
     plan_view('PlanControl.plan_c', PC_CLS, True, 'self->_b0._core'),
 ]
+
+# ---- a control is a *view* of the machine: what it hands out is the machine's own object, not a copy.  Stated as a lemma over
+# the real constructor and accessor (bodies, value context, witness -DW_VALCTX), without naming any field of the control, so it
+# stays meaningful if the control's layout changes: context() of a control built from a core is that core's context object.
+def view_lemma(id_, cls, alias, ctor_nparams, ctor_args):
+    return dict(id='control.%s.view' % id_, witness=W, witness_defines=['W_VALCTX'], recs=CT_RECS, opaque=OPAQUE, opaque_keep=R_KEEP, props=['C06', 'C18'],
+                target=dict(ghost='lemma_view'), consts=CONSTS, ghost=GHOST,
+                also=[dict(cls=cls, kind='ctor', name=alias, nparams=ctor_nparams, mode='body'), dict(cls=cls, name='context', nparams=0, mode='body')],
+                ghost_fns={'lemma_view': dict(
+                    sig='void lemma_view(struct CoreT *core)',
+                    body='{\n\tstruct %s c;\n\t%s__ctor%d(&c, %s);\n\t__CPROVER_assert(%s__context(&c) == &core->context, "context() of a control is the machine\'s own context object");\n}\n'
+                         % (alias, alias, ctor_nparams, ctor_args, alias))},
+                contracts={'lemma_view': dict(requires=[fresh('core')], assigns=[], ensures=[])})
+UNITS += [
+    view_lemma('ConstControl', CCTL_CLS, 'ConstControlT', 1, 'core'),
+    view_lemma('Control', CTL_CLS, 'ControlT', 1, 'core'),
+]
